@@ -902,7 +902,15 @@ class UniformTime(np.ndarray, TimeInterface):
         ta = TimeArray(t, time_unit=self.time_unit)
 
         # check that index is within range
-        if ta.min() < self.t0 or ta.max() >= self.t0 + self.duration:
+        if self.sampling_interval > 0:
+            outside = (ta.min() < self.t0 or
+                       ta.max() >= self.t0 + self.duration)
+        else:
+            # a reversed axis (negative interval, negative duration) covers
+            # (t0 + duration, t0]; the floor division below finds the bin
+            outside = (ta.max() > self.t0 or
+                       ta.min() <= self.t0 + self.duration)
+        if outside:
             raise ValueError('index out of range')
         idx = (ta - self.t0) // self.sampling_interval
         if boolean:
